@@ -507,12 +507,12 @@ def empty_vc(S, dry_run, prefix='empty'):
         ctx.ghost['event_hooks'] = [lambda ev: purge_frame_hook(V, ev, prefix)]
         I.call_hooks = [listing_hook]
         fv = S.resolve('trashcli.empty.emptier', 'Emptier.do_empty')
-        S.resolve('trashcli.empty.emptier', 'Emptier.files_to_delete')
-        S.resolve('trashcli.lib.trash_dir_reader', 'TrashDirReader.list_trashinfo')
-        S.resolve('trashcli.lib.trash_dir_reader', 'TrashDirReader.list_orphans')
-        S.resolve('trashcli.trash_dirs_scanner', 'only_found')
-        S.resolve('trashcli.fs', 'RealEntriesIfDirExists.entries_if_dir_exists')
-        S.resolve('trashcli.empty.console', 'Console.print_dry_run')
+        S.note_function('trashcli.empty.emptier', 'Emptier.files_to_delete')
+        S.note_function('trashcli.lib.trash_dir_reader', 'TrashDirReader.list_trashinfo')
+        S.note_function('trashcli.lib.trash_dir_reader', 'TrashDirReader.list_orphans')
+        S.note_function('trashcli.trash_dirs_scanner', 'only_found')
+        S.note_function('trashcli.fs', 'RealEntriesIfDirExists.entries_if_dir_exists')
+        S.note_function('trashcli.empty.console', 'Console.print_dry_run')
         events = Obj(V.I.lib.object_cls)   # abstract iterable of scan events
         try:
             V.I.call_function(fv, [], {
@@ -748,7 +748,7 @@ def rm_vc(S, prefix='rm'):
                    'TrashDirsScanner.scan_trash_dirs'),
                   ('trashcli.lib.trash_dir_reader',
                    'TrashDirReader.list_trashinfo')):
-            S.resolve(*q)
+            S.note_function(*q)
         try:
             V.I.call_function(fv, [], {'self': cmd, 'argv': ['trash-rm', pat],
                                        'uid': c['uid']})
@@ -927,7 +927,7 @@ def consent_vc(S, prefix='consent'):
                   ('trashcli.empty.user', 'User.do_you_wanna_empty_trash_dirs'),
                   ('trashcli.empty.prepare_output_message',
                    'prepare_output_message')):
-            S.resolve(*q)
+            S.note_function(*q)
         try:
             V.I.call_function(fv, [], {'self': action, 'args': args})
             outcome = 'return'
